@@ -103,3 +103,21 @@ def describe(stage, clause): return CLAUSES.get(clause, 'clause %d' % clause)
 def matches_known(k, case, verdict): return False
 TRUSTED = TRUSTED_BASE
 ASSUMES = ['which inputs contribute is judged only on regular frames (no prefix of condition-less contributors merges to exactly zero while another is still to be merged), as the property states']
+
+
+def route_cases(tier, rng):
+    """the order of an input's modifiers is the declaration order whatever the construction route: set-wide modifiers
+    (with_modifiers_each) come AFTER the binding's own ones, also over presets and decorated bindings; judged by the
+    route-equivalence judgement of C19 (every route behaves like the hand-written sequence)"""
+    import C19
+    for c, tag in C19._cases(tier, rng):
+        if tag.startswith('routes-x') or 'decorated' in tag or 'presets-created' in tag:
+            yield (c if c.startswith('(rmulti') else '(rmulti [%s])' % c, 'routed-' + tag)
+
+STAGES.append(dict(name='routes', mode='app', coq='Check.C19m', profile=('Proofs.JudgeC19P', 'JudgeC19P.profile_C19mb', 'C19_routes_judgement_sound / C19_app_judgement_transfer (the stage is judged by Check.C19m)'),
+                   noshrink=True, cases=route_cases, nontrivial=lambda case, out: 'SFired' in out, shard=20, exhaustive={'thorough': False, 'quick': False},
+                   rule='the construction routes of C19 whose modifiers are attached in several steps: own modifiers of a binding (scripted, value-setting, so that the order is visible) plus set-wide ones through with_modifiers_each, presets over decorated fields; each route against the hand-written sequence'))
+CLAUSES_ROUTES = {1: 'a route does not denote the logical binding sequence', 2: 'a preset does not match the compass', 3: 'a construction route applies an input\'s modifiers in another order than the declaration order (it differs from the hand-written sequence)'}
+_describe0 = describe
+def describe(stage, clause):
+    return CLAUSES_ROUTES.get(clause, 'clause %d' % clause) if stage == 'routes' else _describe0(stage, clause)
